@@ -739,6 +739,25 @@ class CombinedExpressionSerialization(DeconstructedSerialization):
         2.2
     """
 
+    #: A mapping of SQL-side connectors to the equivalent Python operators.
+    connector_operators = {
+        '+': '+',
+        '-': '-',
+        '*': '*',
+        '/': '/',
+        '^': '**',
+        '%%': '%',
+    }
+
+    #: A mapping of SQL-side connectors to the methods that produce them.
+    connector_methods = {
+        '&': 'bitand',
+        '|': 'bitor',
+        '#': 'bitxor',
+        '<<': 'bitleftshift',
+        '>>': 'bitrightshift',
+    }
+
     @classmethod
     def serialize_to_python(cls, value):
         """Serialize a CombinedExpression object to a Python code string.
@@ -763,7 +782,22 @@ class CombinedExpressionSerialization(DeconstructedSerialization):
 
             operands.append(operand_str)
 
-        return '%s %s %s' % (operands[0], value.connector, operands[1])
+        connector = value.connector
+
+        if connector in cls.connector_operators:
+            return '%s %s %s' % (operands[0],
+                                 cls.connector_operators[connector],
+                                 operands[1])
+        elif connector in cls.connector_methods:
+            # These have no Python operator. Django requires calling a
+            # method on the left-hand side.
+            return '%s.%s(%s)' % (operands[0],
+                                  cls.connector_methods[connector],
+                                  operands[1])
+        else:
+            raise ValueError(
+                'Unsupported connector %r in combined expression %r'
+                % (connector, value))
 
     @classmethod
     def _deconstruct_object(cls, obj):
